@@ -45,6 +45,9 @@ CHECKS = {
     'C13': dict(category='exploration', technique='exhaustive enumeration of all ordered same-typed pattern pairs x default pairs x physical contents (all {0,1,1.5}-assignments for small tensors, copy-with-single-perturbation otherwise) x tolerances against torch.equal/allclose on the dense tensors; all key-presence patterns for MultiTensor.allclose',
                 text='For every ordered pair of same-typed patterns of the 606-pattern catalogue, seven default pairs and the enumerated contents, PatternedTensor.equal / allclose (three tolerance settings, both argument orders), equal_default / allclose_default and the representation-insensitivity clauses (clone, densification, re-patterned copy) are compared with torch on to_dense(); MultiTensor.allclose is run on all 64x64 presence/value combinations of two 3-key MultiTensors at tol 0 and 0.1 in the Real and Log semirings against "absent = semiring zero".',
                 note='torch.equal / torch.allclose are the specification. Bounds in evidence.', design='3/C13'),
+    'C07': dict(category='exploration', technique='exhaustive enumeration of einsum signatures (up to renaming) x operand sparsity patterns and storage layouts x value deviations x 4 semirings x grad on/off against brute-force loops; pointer validation for the Viterbi variant',
+                text='Every einsum signature below the bound (incl. indices repeated inside an operand, every ordered output subset, size-1 and size-0 indices, product-split axes) is run through the real einsum for every combination of operand patterns (dense, permuted, stride-0 on last/first/all axes, diagonal, one-hot, offset, non-zero default, product split) in all four semirings with and without requires_grad, and compared with brute-force loops over all index values (0*inf=0); log_viterbi_einsum_forward must return the maximum and in-range pointers attaining it; mv/mm and the empty operand list are covered.',
+                note='Dense operands come from to_dense() (C06). Pointer variant judged without +inf entries. Bounds in evidence.', design='3/C07'),
 }
 
 ALL = ['C%02d' % i for i in range(1, 21)]
